@@ -128,7 +128,34 @@ def batch_job(isos):
 DEV_PRESET, DEV_NMONTHS = "ms_example_resilient", 72
 
 
-def dev_menu():
+def table_families(iso):
+    """custom country-table parameters (any column of the shipped table can be overridden through the option dictionary): one
+    deviation per column family, every numeric non-zero cell of the family halved.  Read with the csv module: the parent process
+    must not import the code under test."""
+    import csv
+    import re
+    path = os.path.join(common.REPO, "data", "no_food_trade", "computer_readable_combined.csv")
+    with open(path, newline="") as f:
+        rows = [r for r in csv.DictReader(f) if r.get("iso3") == iso]
+    if not rows:
+        return []
+    row = rows[0]
+    fams = {}
+    for k, v in row.items():
+        if k in ("iso3", "country", "") or k.endswith("_head") or k.endswith("_slaughter"):
+            continue
+        try:
+            x = float(v)
+        except (TypeError, ValueError):
+            continue
+        if x == 0 or x != x:
+            continue
+        fam = re.sub(r"(_(jan|feb|mar|apr|may|jun|jul|aug|sep|oct|nov|dec)|[-_]?-?\d+)$", "", k)
+        fams.setdefault(fam, {})[k] = x * 0.5
+    return [("table:%s x0.5" % fam, cells) for fam, cells in sorted(fams.items())]
+
+
+def dev_menu(iso=None):
     base = options.clean(options.preset(DEV_PRESET))
     base["NMONTHS"] = DEV_NMONTHS
     out = []
@@ -137,6 +164,8 @@ def dev_menu():
         diff = {k: v for k, v in o.items() if base.get(k) != v}
         if diff:
             out.append((tag, diff))
+    if iso:
+        out.extend(table_families(iso))
     return out
 
 
@@ -147,7 +176,12 @@ def dev_history_job(job):
     out = {"iso3": iso, "first": first, "second": second}
     try:
         if first is not None:
-            one_run(iso, DEV_PRESET, DEV_NMONTHS, "c14d_%d_a" % os.getpid(), first[1])
+            try:
+                one_run(iso, DEV_PRESET, DEV_NMONTHS, "c14d_%d_a" % os.getpid(), first[1])
+            except BaseException as e:
+                # the earlier run may itself be refused by the model's input validation (e.g. a halved seasonality no longer
+                # sums to one): a refused or failed run is still part of the history, the judged run must not depend on it
+                out["first_run_failed"] = repr(e)[:120]
         dg, parts, unmodified, conv = one_run(iso, DEV_PRESET, DEV_NMONTHS, "c14d_%d_b" % os.getpid(), second[1] if second else None)
         out.update(digest=dg, parts=parts)
     except BaseException as e:
@@ -235,10 +269,10 @@ def run(tier, seed):
                     iso, r["isos"], diff[:6], run["parts"].get("headline"), base["parts"].get("headline")), rp))
     # deviation histories: the base run after the same country was run with ONE option family changed must equal the base run alone
     # (thorough: also every deviation run after the base run must equal that deviation run alone)
-    menu = dev_menu()
     dev_isos = ("IND",) if tier == "quick" else ("IND", "VNM", "USA")
     djobs = []
     for iso in dev_isos:
+        menu = dev_menu(iso)
         djobs.append((iso, None, None))
         for dv in menu:
             djobs.append((iso, dv, None))
@@ -270,7 +304,7 @@ def run(tier, seed):
            "runs": n_runs, "histories": len(seqs),
            "bound": {"depth": "every ordered sequence of length <= %d over the pool (repeats allowed), one fresh process each" % d,
                      "pool": [label_of(p) for p in POOL], "alone": "every pool run alone under PYTHONHASHSEED in %s" % (list(hashseeds),),
-                     "deviation_histories": "for %s: the %s/%d run after the same country was run with each of the %d single-family deviations (thorough: and each deviation run after the base run), one fresh process each" % (
+                     "deviation_histories": "for %s: the %s/%d run after the same country was run with each of its %d deviations (every single option-family deviation + every column family of the country table halved through the custom-parameter mechanism; thorough: and each deviation run after the base run), one fresh process each" % (
                          list(dev_isos), DEV_PRESET, DEV_NMONTHS, len(menu)),
                      "batches": "every subset of size <= %d of %s in one multi-country call sharing one option dictionary (%s, %d months), each in a fresh process" % (
                          kmax, BATCH, BATCH_PRESET, BATCH_NMONTHS)},
